@@ -1708,10 +1708,13 @@ def c03(ctx):
     ctx.add_mc(r)
     # (ii) every transition of the composite model for every pair of small sizes, dead bytes poisoned
     scripts = []
-    top = 2 if q else 4
-    for cmd in range(0, top + 1):
-        for hcap in range(0, top + 1):
-            consts = {"CmdCap": cmd, "HistCap": hcap, "Chars": [97, 233] if q else [97, 32, 233, 20013], "NameSet": "tiny", "WithApi": True}
+    top = 2 if q else 3
+    pairs = [(c, h) for c in range(0, top + 1) for h in range(0, top + 1)]
+    if not q:
+        pairs += [(4, 0), (4, 4), (0, 4), (1, 4)]
+    for cmd, hcap in pairs:
+            chars = [97, 233] if q else ([97, 233, 20013] if cmd <= 3 else [97, 128512])
+            consts = {"CmdCap": cmd, "HistCap": hcap, "Chars": chars, "NameSet": "tiny", "WithApi": cmd <= 3}
             sc = mc_cli_scripts(ctx, consts, rng, limit=400 if q else 6000, sid0=len(scripts) + 1)
             for x in sc:
                 x["cfg"]["poison"] = True
